@@ -43,7 +43,9 @@ ASSUMPTIONS = ["monitor = CPython audit events + recursive value-kind walk + bef
 # ------------------------------------------------------------------------------------------------ evaluation environment
 TXN = {"description": "NETFLIX 123", "amount": 50.0, "date": dt.date(2025, 1, 15), "field": {"memo": "REF 77", "type": "WIRE"},
        "source": "Amex", "location": "Seattle"}
-ORDERS = {"orders": [{"item": "Book", "amount": 99.75, "date": dt.date(2025, 1, 15)}, {"item": "Pen", "amount": 0.25, "date": dt.date(2025, 2, 1)}]}
+ORDERS = {"orders": [{"item": "Book", "amount": 99.75, "date": dt.date(2025, 1, 15)}, {"item": "Pen", "amount": 0.25, "date": dt.date(2025, 2, 1)}],
+          # rows of different widths (a short CSV line): reading the missing column must not add it
+          "ragged": [{"item": "Lamp", "amount": 5.0, "note": "gift"}, {"item": "Rug", "amount": 7.5}]}
 VARS = {"threshold": 10, "label": "x"}
 
 # ------------------------------------------------------------------------------------------------ corpus 1: nodes
@@ -58,6 +60,7 @@ BASE_OK = [  # documented constructs (may evaluate)
     "(m := amount) and m > 1", 'date >= "2025-01-01"', 'date == "2025-01-15"', '"2025-01-01" <= date', 'extract("(\\\\d+)")', 'exists(field.nope)',
     'sum(by("month"))', 'max(by("day"))', 'count(by("week"))', 'avg(by("year"))', 'by("month")', 'max(sum(by("month")))', "months", "total", "cv", "payments",
     "count(payments)", "category", "subcategory", "merchant", "tags", 'period("month")', "stddev(payments)", "max_val", "total / months",
+    "[r.note for r in ragged]", "ragged[1].note", 'any(r.note == "" for r in ragged)', "ragged[0].note", 'ragged[1]["note"]', "len(ragged[1])",
     "max(1, 2)", "min(r.amount for r in orders)", "[r async for r in orders]", "[(x.item for x in orders) for r in orders]", 'split(" ", 0)', "substring(0, 3)", "trim()", 'b"bytes"', "1j", "...",
 ]
 BASE_BAD = [  # constructs outside the documented language: must be rejected or fail as an expression error
@@ -187,6 +190,19 @@ BASE_OK += [e for f in sorted(TXN_FUNCS) for e in (f"{f}((r for r in orders))", 
                                                     f"{f}((r.item for r in orders), \"a\", \"b\")")]
 
 
+def context_names():
+    """Every attribute name of tally's own evaluation-context and evaluator classes (enumerated at run time), as a bare name and as a
+    call: the expression language reads transaction data through a fixed list of names, not through the objects that hold it."""
+    from tally import expr_parser as ep
+    names = set()
+    for cls in (ep.TransactionContext, ep.TransactionEvaluator, ep.ExpressionContext, ep.ExpressionEvaluator):
+        names.update(n for n in dir(cls) if not n.startswith("__"))
+        names.update(getattr(cls, "__dataclass_fields__", {}).keys())
+        names.update(getattr(cls, "__annotations__", {}).keys())
+    names.update({"ctx", "self", "variables", "data_sources", "transaction", "evaluator", "context"})
+    return sorted(names)
+
+
 def function_corpus():
     """Every public name of builtins and of the modules the evaluator imports, called as a function (C03: closed function tables)."""
     import builtins, statistics, re as _re, warnings as _w, datetime as _d, typing as _t, math, os, sys, operator, itertools as _it, collections, functools as _f
@@ -219,6 +235,9 @@ def gen_cases(tier):
     for i in range(0, len(fc), CHUNK):
         yield {"corpus": "functions", "contexts": "functions", "items": [[e, low] for e, low in fc[i:i + CHUNK]]}
     yield {"corpus": "residue", "contexts": "residue", "items": [[b, None] for b in BINDERS]}
+    cn = [x for n in context_names() for x in (n, n.upper(), f"{n}()", f"{n}(description)")]
+    for i in range(0, len(cn), CHUNK):
+        yield {"corpus": "context-names", "contexts": "functions", "items": [[e, False] for e in cn[i:i + CHUNK]]}
     for corpus, items, ctxs in (("node", node_corpus(), "all"), ("payload", payload_corpus(), "all" if tier == "thorough" else "direct+some"),
                                 ("closure", list(closure_corpus()), "all" if tier == "thorough" else "direct")):
         for i in range(0, len(items), CHUNK):
